@@ -36,9 +36,9 @@ def confirm(patch, demo, wt):
     sh(["git", "apply", patch], cwd=wt)
     name = os.path.splitext(os.path.basename(demo))[0]
     # existing suite (everything except the demo files) with the change
-    rc, o = sh("cargo test --offline --lib --doc 2>&1 | tail -40; for t in cubic_spline_strat interp1d interp2d; do cargo test --offline --test $t 2>&1 | grep -E '^test result|FAILED|error' ; done", cwd=wt)
+    rc, o = sh("cargo test --offline --lib 2>&1 | grep -E '^test result|FAILED|^error'; cargo test --offline --doc 2>&1 | grep -E '^test result|FAILED|^error'; for t in cubic_spline_strat interp1d interp2d; do cargo test --offline --test $t 2>&1 | grep -E '^test result|FAILED|^error' ; done", cwd=wt)
     res = re.findall(r"test result: (\w+)\. (\d+) passed; (\d+) failed", o)
-    out["suite_with_change"] = {"results": res, "green": bool(res) and all(r[0] == "ok" for r in res) and "error" not in o.split("test result")[0][-200:]}
+    out["suite_with_change"] = {"results": res, "green": len(res) == 5 and all(r[0] == "ok" for r in res) and "error" not in o}
     out["suite_tests_passed"] = sum(int(r[1]) for r in res)
     rc, o = sh(f"cargo test --offline --test {name} 2>&1 | tail -30", cwd=wt)
     out["demo_fails_with_change"] = "test result: FAILED" in o or "panicked" in o or "error: test failed" in o
